@@ -820,6 +820,9 @@ def get_mttkrp_factors(
 
     assert 0 <= n < ndims, "Mode n must be in [0, ndims)"
 
+    if len({U[i].shape[1] for i in range(ndims) if i != n}) > 1:
+        assert False, "All matrices must have the same number of columns"
+
     return U
 
 
